@@ -13,6 +13,7 @@ const (
 	MacroNotFound           = "macro not found"
 	TooManyDirectives       = "the expansion of the macros gives too many directives"
 	TooManyIncludes         = "the project includes too many files"
+	IncludesNestedTooDeep   = "the INCLUDE directives are nested too deep"
 	SchemaIsTooDeep         = "the schema is nested too deep"
 	TooManyTypeReferences   = "the user types refer to each other in too many ways"
 	UnionRefersToItself     = "the type of a shortcut key cannot be a union of types that leads back to itself:"
